@@ -121,3 +121,13 @@ claim("C16",
       "Trusted: Coq kernel + VM; harness. No axioms. History tests run /repo in plain floats and compare with relative tolerance 1e-9; "
       "event signal_time is excluded from the definition comparison (strategy constructors move it earlier, idempotently).",
       "Coq proof of shift invariance on the event model + exact correspondence + sampled history tests", "5.16")
+claim("C14",
+      "Exact comparison (implementation vs implementation, both executed on exact rationals): at every connector without "
+      "number_cs the distributed run equals, step by step, the balanced (depot) resp. greedy (opportunity) run on the "
+      "connector's own sub-scenario and the distributed run on that sub-scenario alone; on every step at most number_cs "
+      "stations carry power. The delegated strategies are the Strat model tied by exact per-step correspondence (C10). "
+      "The distributed strategy's own code is not modelled: sampled, not proved.",
+      "Trusted: harness (sub-scenario construction, exact execution). One auxiliary lemma about the model's dictionaries is proved; "
+      "no theorem about Distributed.step itself.",
+      "exact differential comparison distributed vs delegated strategies + step-model correspondence", "5.14",
+      category="translation_validation")
